@@ -49,7 +49,7 @@ class JobResult:
         self.solver_s = 0.0
         self.wall_s = 0.0
         self.cmds = []
-        self.backend = 'SAT (cbmc built-in MiniSat/CaDiCaL default)'
+        self.backend = 'SAT'
         self.trace_inputs = {}       # obligation id -> {var: value}
         self.raw_fail_output = {}    # obligation id -> text
         self.bounded = job.get('kind') == 'bounded'
@@ -188,11 +188,10 @@ def run_job(unit, job, cpath, outdir, tier, extra_defines=()):
         flags += ['--unwindset', us]
     if job.get('object_bits'):
         flags += ['--object-bits', str(job['object_bits'])]
-    solver = job.get('solver', [])
+    solver = job.get('solver', unit.get('solver', ['--sat-solver', 'cadical']))
     cb = ['cbmc', b_gb] + flags + solver + ['--json-ui']
     res.cmds.append(' '.join(cb))
-    if solver:
-        res.backend = ' '.join(solver)
+    res.backend = 'cbmc ' + (' '.join(solver) if solver else '(default MiniSat2)')
     rc, out, err, dt = run(cb, timeout)
     res.solver_s = dt
     if rc == -9:
